@@ -84,11 +84,23 @@ def stale_loop_values(pyx):
     def names_read(n):
         return [x.name for x in walk(n) if tname(x) == 'NameNode']
 
+    def filled(call):
+        """names V of a C struct filled through out-parameters: f(..., &V.ptr, &V.size) / f(..., &V)"""
+        out_ = []
+        for a in getattr(call, 'args', None) or []:
+            if tname(a) == 'AmpersandNode':
+                o = a.operand
+                if tname(o) == 'AttributeNode' and tname(o.obj) == 'NameNode':
+                    out_.append(o.obj.name)
+        return out_
+
     def assigns(n):
         """[(name, is_update)] assigned anywhere inside n"""
         res = []
         for x in walk(n):
             t = tname(x)
+            if t == 'SimpleCallNode' and tname(x.function) == 'NameNode' and x.function.name == 'PyBytes_AsStringAndSize':
+                res.extend((v, False) for v in filled(x))
             if t == 'SingleAssignmentNode' and tname(x.lhs) == 'NameNode':
                 res.append((x.lhs.name, x.lhs.name in names_read(x.rhs)))
             elif t == 'InPlaceAssignmentNode' and tname(x.lhs) == 'NameNode':
@@ -161,6 +173,11 @@ def stale_loop_values(pyx):
                 pass            # inner loops are visited on their own
             elif t == 'StatListNode':
                 definite = proc(st.stats, definite, fresh, fname_)
+            elif t == 'ExprStatNode' and tname(st.expr) == 'SimpleCallNode' and tname(st.expr.function) == 'NameNode' \
+                    and st.expr.function.name == 'PyBytes_AsStringAndSize':
+                vs = filled(st.expr)
+                check([v for v in names_read(st) if v not in vs])
+                definite.update(vs)
             else:
                 check(names_read(st))
         return definite
